@@ -223,6 +223,32 @@ def larger_events(ctx, rnd, quick, events):
     return nrep
 
 
+def sparse_large_events(ctx, rnd, quick, events):
+    """Patterns of 8-12 points with very few shaded cells, among them the four cells around a point (a fully shaded block
+    that is not point free): sub-patterns on index sets that leave that point out / keep it, and the pattern inside itself."""
+    for it in range(30 if quick else 300):
+        k = rnd.choice([8, 8, 9, 10, 12])
+        p = util.rand_perm(rnd, k) if it % 3 else tuple(range(k))
+        R = set()
+        pts = rnd.sample(range(k), rnd.randint(1, 2))
+        for i in pts:                                         # the block of cells around point i (all four, or three of them)
+            block = [(i, p[i]), (i + 1, p[i]), (i, p[i] + 1), (i + 1, p[i] + 1)]
+            R.update(block if rnd.random() < 0.7 else rnd.sample(block, 3))
+        if rnd.random() < 0.5:
+            R.add((rnd.randint(0, k), rnd.randint(0, k)))
+        R = sorted(R)
+        M = MeshPatt(Perm(p), R)
+        j = [list(c) for c in R]
+        rest = [x for x in range(k) if x not in pts]
+        for S in (rest, sorted(rest + pts[:1]), rest[1:], list(range(k)), sorted(rnd.sample(range(k), k - 2))):
+            fname, form = rnd.choice(index_forms(S, it))
+            st, Sb = util.call(M.sub_mesh_pattern, form)
+            if st == "raise":
+                ctx.violation({"kind": "trace-form", "p": list(p), "R": j, "S": S, "form": fname}, "InducedSubPattern", "a pattern", {"raised": Sb})
+                continue
+            events.append({"op": "Sub", "p": list(p), "R": j, "S": S, "form": fname, "resp": list(Sb.pattern), "resR": [list(c) for c in Sb.shading]})
+
+
 def weak_hash_events(ctx):
     """Run in the weak-hash interpreter (harness/weakhash.py): sub-patterns and pattern-in-pattern searches on patterns that
     share a few hash values, many with the same underlying permutation and the same index sets, in one process."""
@@ -306,6 +332,7 @@ def run(ctx):
                 events.append({"op": "Implies", "p1": list(p1), "R1": j1, "p2": list(p2), "R2": j2, "q": list(q),
                                "c2": Q.contains(M2), "c1": Q.contains(M1)})
     nrep += larger_events(ctx, rnd, quick, events)
+    sparse_large_events(ctx, rnd, quick, events)
     events += util.weak_hash_finish(ctx, weak, "c06")
     if nrep == 0:
         raise tlc.MachineryFailure("C06: no containment was ever reported by the real code in the random pairs")
